@@ -1473,8 +1473,14 @@ class Interp:
                 return Tup([hv(x, '%s.%d' % (hint, i)) for i, x in enumerate(v.xs)])
             if isinstance(v, Adt):
                 if v.is_enum:
-                    # enum values assigned in loops: replace by a symbolic object of the same type
-                    return Sym(T.var('%s@bb%d#%d.e%d' % (hint, head, inst, len(mapping))), v.path)
+                    # enum values assigned in loops: replace by a symbolic object of the same type; its entry value is
+                    # kept in the mapping so that invariants about its variant / payload can be checked at entry
+                    nv = T.var('%s@bb%d#%d.e%d' % (hint, head, inst, len(mapping)))
+                    try:
+                        mapping.append((nv, self.to_term(st, v)))
+                    except Exception:
+                        pass
+                    return Sym(nv, v.path)
                 return Adt(v.path, v.variant, v.vidx, [hv(x, '%s.%d' % (hint, i)) for i, x in enumerate(v.xs)], v.is_enum)
             if isinstance(v, Iter):
                 r = Iter(v.base, hv(v.pos, hint + '.pos', 'usize'), hv(v.end, hint + '.end', 'usize') if 'rev' in v.kind else v.end, v.kind, v.extra, v.fns, v.zipped)
@@ -1589,9 +1595,15 @@ class Interp:
                     cv(x)
             elif isinstance(v, Adt):
                 if v.is_enum:
+                    try:
+                        vals.append(self.to_term(st, v))
+                    except Exception:
+                        vals.append(st.fresh_var('unknown'))
                     return
                 for x in v.xs:
                     cv(x)
+            elif isinstance(v, Sym) and isinstance(v.term, tuple) and v.term[0] == 'var' and re.search(r'@bb\d+#\d+\.e\d+$', v.term[1]):
+                vals.append(v.term)      # a loop-carried enum that this way round the loop did not reassign
             elif isinstance(v, Iter):
                 cv(v.pos)
                 if 'rev' in v.kind:
